@@ -237,7 +237,7 @@ def run(R):
     inv = bridge.CellInvariant(R).install()
     try:
         ctors = S.all_ctors()
-        per = 25 if quick else 3000
+        per = 70 if quick else 3000
         for ci, (name, cname) in enumerate(ctors):
             if R.nshards > 1 and ci % R.nshards != R.shard:
                 continue
